@@ -594,6 +594,7 @@ class SpectrumAnalyzer:
         else:
             olap = float(self.config["final_olap"])
             navg = int(round_half_up(((self.nx - segL) / (1.0 - olap)) / segL + 1.0))
+            navg = min(navg, self.nx - segL + 1)  # only N-L+1 distinct start positions exist
             if navg <= 1:
                 navg = 1
                 starts = _np.array([0], dtype=_np.int64)
